@@ -100,7 +100,14 @@ func genTag(t *rapid.T) string {
 		return rapid.SampledFrom(tagWords).Draw(t, "word")
 	}
 	const first = "abcdefghijklmnopqrstuvwxyzABCDEFGHIJKLMNOPQRSTUVWXYZ0123456789_"
-	return strOf(first, 1, 1).Draw(t, "first") + strOf(first+".-", 0, 12).Draw(t, "rest")
+	// The Docker tag grammar allows 1-128 characters: mostly short tags, one in five of
+	// any length, with the longest ones favoured.
+	rest := 12
+	if rapid.IntRange(0, 4).Draw(t, "long") == 0 {
+		rest = rapid.SampledFrom([]int{127, 127, 126, 125, 63, 64, rapid.IntRange(13, 127).Draw(t, "len")}).Draw(t, "restlen")
+		return strOf(first, 1, 1).Draw(t, "first") + strOf(first+".-", rest, rest).Draw(t, "rest")
+	}
+	return strOf(first, 1, 1).Draw(t, "first") + strOf(first+".-", 0, rest).Draw(t, "rest")
 }
 
 func genHex(t *rapid.T) string {
@@ -584,7 +591,7 @@ func TestProp(t *testing.T) {
 	pbt.Main(t, pbt.Spec{
 		ID: "C38",
 		Rule: "part build: a path of one of 12 kinds (manifest tag/revision directories and links, layer link/data, blob data, upload data/startedat/hashstates with and without offset) is built under /docker/registry/v2 " +
-			"from a Docker-grammar repository of 1-4 components (half of them layout words such as repositories, blobs, tags, current, link, data, sha256), a Docker-grammar tag (a third of them layout words incl. _uploads/_layers/_manifests), " +
+			"from a Docker-grammar repository of 1-4 components (half of them layout words such as repositories, blobs, tags, current, link, data, sha256), a Docker-grammar tag of 1-128 characters (a third of them layout words incl. _uploads/_layers/_manifests; one in eight long, favouring 126-128 characters), " +
 			"a random sha256 hex digest, a uuid, an algorithm and an offset; ParsePath must return the documented (type, subtype) of that kind and GetRepo/GetManifestTag/GetManifestDigest/GetLayerDigest/GetBlobDigest/GetUploadUUID/GetUploadAlgoAndOffset " +
 			"must return exactly the components used; every build case is non-trivial. part mutate: one character or segment edit (insert/delete/substitute/duplicate/swap/truncate/append, layout words as material) of such a path; " +
 			"judged by a segment-based reference of the layout: still a valid layout path => full round trip for what it now spells; no reading even with arbitrary prefix/tag/id => the ParsePath+extractor pipeline must reject it; " +
